@@ -150,6 +150,7 @@ func NewE2(o E2Options) *E2 {
 		e.Accounts = append(e.Accounts, Account{Idx: e.nVals + i, Name: fmt.Sprintf("user%d", i), Priv: priv, Addr: sdk.AccAddress(priv.PubKey().Address())})
 	}
 	for i := range e.Accounts {
+		e.Accounts[i].Num = uint64(i) // genesis account numbers; re-read from state after every block
 		e.byAddr[string(e.Accounts[i].Addr)] = &e.Accounts[i]
 	}
 	for i := range e.Vals {
@@ -302,9 +303,6 @@ func (e *E2) SignTx(acc *Account, msgs ...sdk.Msg) []byte {
 
 // SignTxWith signs with several accounts (multi-signer messages); signers in the order the tx expects them.
 func (e *E2) SignTxWith(signers []*Account, msgs ...sdk.Msg) ([]byte, error) {
-	if e.Height == 0 && signers[0].Seq == 0 && signers[0].Num == 0 {
-		e.syncAccounts()
-	}
 	var nums, seqs []uint64
 	var privs []ccrypto.PrivKey
 	for _, s := range signers {
